@@ -8,12 +8,18 @@ import Driver.Util
 import Driver.C20
 import Driver.Dur
 import Driver.Gen
+import Driver.Wts
+import Driver.Mlpg
 
 open Drv
 
 def dispatch (op : String) : Option (P Verdict) :=
   match op with
   | "cond" => some Drv.C20.run
+  | "vset" => some Drv.Wts.runVset
+  | "wset" => some Drv.Wts.runWset
+  | "wavg" => some Drv.Wts.runWavg
+  | "mlpg" => some Drv.Mlpg.run
   | "gen" => some Drv.Gen.run
   | "dur" => some Drv.Dur.runDur
   | "align" => some Drv.Dur.runAlign
